@@ -151,9 +151,16 @@ impl State {
                 self.peers[k] = Some(Peer { sock, client: None });
                 writeln!(out, "new peer {}", k).unwrap();
             }
-            "psend" | "psendraw" | "psendc" => {
+            "psend" | "psendraw" | "psendfix" | "psendc" => {
                 let k = n(toks[1]) as usize;
-                let bytes: Vec<u8> = if toks[0] == "psendraw" { spec::bytes_of_hex(toks[2]) } else { spec::parse_frame(&toks[2..]).write().to_vec() };
+                let bytes: Vec<u8> = if toks[0] == "psendraw" { spec::bytes_of_hex(toks[2]) }
+                    else if toks[0] == "psendfix" {
+                        // body bytes followed by their correct CRC
+                        let mut b = spec::bytes_of_hex(toks[2]);
+                        let crc = uv::crc_compute(&b);
+                        b.extend_from_slice(&[(crc >> 24) as u8, (crc >> 16) as u8, (crc >> 8) as u8, crc as u8]);
+                        b
+                    } else { spec::parse_frame(&toks[2..]).write().to_vec() };
                 let p = self.peers[k].as_ref().expect("no such peer");
                 if toks[0] == "psendc" {
                     if let Some(j) = p.client {
